@@ -12,6 +12,13 @@ import classgen
 
 # ---------------------------------------------------------------- C01: conformance
 
+def is_abstract_doc(cls):
+    """Abstract as documented -- abc.ABC among the direct bases, or abstract methods -- independent of yatiml.util.is_abstract."""
+    import abc
+    import inspect
+    return inspect.isabstract(cls) or abc.ABC in cls.__bases__
+
+
 def plain(v):
     if v is None or type(v) in (str, int, float, bool, datetime.date, datetime.datetime, bytes):
         return True
@@ -76,7 +83,7 @@ def conforms(model, v, t, why):
             why.append(f'{v!r} of class {d} is not {c} or a registered subclass')
             return False
         cls = model.cls(d)
-        if util.is_abstract(cls):
+        if is_abstract_doc(cls):
             why.append(f'abstract class {d} was instantiated')
             return False
         if isinstance(v, enum.Enum) or hasattr(v, '_verif_str'):
